@@ -19,8 +19,8 @@ CHECKS = {
  "C05": (T + "ground-truth differential: conformant IPFIX streams (fixed, zero-length, variable-length, enterprise fields) compared unit by unit with the abstract stream",
          "As C04 for RFC 7011 messages, including both variable-length prefix forms, enterprise numbers, options templates with scope counts, several sets per message; dedicated families observe the listed findings exactly against their defect models.",
          "As C04."),
- "C08": (T + "round-trip oracle: to_be_bytes vs the consumed input slice, and struct -> bytes -> struct",
-         "Byte identity of re-export for every generated V5/V7 packet (count sweep exhaustive in the thorough tier) and field-wise identity for harness-built structures; a difference is attributed to a field through the offset table.",
+ "C08": (T + "round-trip oracle: to_be_bytes vs the consumed input slice (complete packets, and every V5/V7 element returned for cut, hostile, mutated and corpus buffers), and struct -> bytes -> struct",
+         "Byte identity of re-export for every generated V5/V7 packet (count sweep exhaustive in the thorough tier), for every V5/V7 element the library returns for buffers cut on/around record boundaries and for hostile histories, and field-wise identity for harness-built structures; a difference is attributed to a field through the offset table.",
          "Exploration only."),
  "C09": (T + "round-trip oracle on conformant V9 streams with a per-cell model of the listed lossy re-export classes",
          "Re-export must equal the consumed bytes exactly, or equal the input with cells of a listed lossy class (duration, MAC, non-UTF-8 string, unassigned protocol) replaced by exactly what the listed model predicts; anything else is a violation attributed to a unit.",
@@ -28,11 +28,11 @@ CHECKS = {
  "C10": (T + "round-trip oracle on conformant IPFIX streams with a per-cell model of the listed lossy re-export classes",
          "As C09 for IPFIX (additional listed classes: variable-length prefix, signed width).",
          "As C09."),
- "C06": (T + "cache-model monitor: the four public template maps of every parser are compared with a model cache after every call of seeded define/redefine/data/no-op histories; decoded data compared with the abstract stream",
+ "C06": (T + "cache-model monitor: the four public template maps of every parser are compared with a model cache after every call of seeded define/redefine/data/no-op histories; decoded data compared with the abstract stream; universal invariants (no eviction, isolation, data-only no-op) on hostile histories; id-space stress over thousands of live ids",
          "After every call: decoded data must follow the latest definition (ground-truth differential), the library's caches must equal the model (latest complete record per id per protocol per parser), no-op inputs (V5/V7, data only, garbage, truncated template packets, disallowed versions) must leave all four maps identical, other parser instances must be untouched, ids never disappear.",
          "Caches are public fields, so no source hook is needed; split-invariance of the same histories is decided by C11's monitor."),
  "C07": (T + "withheld-template histories with cache snapshots and ground-truth differential after the template arrives",
-         "A data set whose template was never sent / sent only for the other protocol / only to another parser instance must not produce records: V9 packet => one error carrying the packet, IPFIX message => reported without that set; caches identical before/after; earlier packets of the buffer still reported; after the template arrives the identical bytes decode to the abstract records.",
+         "A data set (with records, or without a complete record) whose template was never sent / sent only for the other protocol / only to another parser instance / only in a rejected or truncated template record / received, used and then removed from the public cache by the application must not produce records: V9 packet => one error carrying the packet, IPFIX message => reported without that set; caches identical before/after; earlier packets of the buffer still reported; after the template arrives the identical bytes decode to the abstract records.",
          "What happens to IPFIX sets after the undecodable one is C05's listed finding and is not judged here."),
  "C11": (T + "metamorphic split monitor: every partition of a packet sequence into calls vs one packet per call (results, caches, common flowsets)",
          "For sequences of n <= 6 (thorough 8) packets all 2^(n-1) partitions are executed on fresh parsers and must give Debug-identical concatenated results, identical final caches and the same number of common flows as one-packet-per-call delivery.",
@@ -46,9 +46,9 @@ CHECKS = {
  "C13": (T + "projection oracle: as_netflow_common / parse_bytes_as_netflow_common_flowsets vs a projection computed from the abstract stream with an independent projected-field table",
          "For V5/V7/V9/IPFIX streams whose templates mix the ten projected fields (IPv4 or IPv6 variants) with others: version, timestamp, one flow per record in order, every field equal to the abstract value and None exactly when the record has no such field; errors convert to Err; the flattening helper equals the concatenation over the packets of the buffer.",
          "Projected fields are generated at their natural widths and at most once per template so that the projection is unambiguous."),
- "C15": (T + "counting global allocator around every parse_bytes call: work / single-request / output bounds on hostile histories, constant-free doubling tests on size-parametrised families, announced-count inputs",
-         "Bytes requested, allocation count, peak, largest single request and result size (bytes released when the result is dropped) are deterministic per call. Sharp monitors: doubling pairs (k vs 2k must stay linear for every repetition of the format) and the single-request bound (no allocation sized by a count/length field beyond what the input or result justifies); the absolute bounds use constants calibrated on the repaired tree.",
-         "Allocation is the proxy for cost (a quadratic loop that allocates nothing would be missed); calls whose caches hold zero-length fields are attributed to the listed amplification finding and only judged by the single-request bound."),
+ "C15": (T + "counting global allocator around every parse_bytes call (work / single-request / output bounds on hostile histories, constant-free doubling tests on 35 size-parametrised families, cache-size independence, announced-count inputs) plus valgrind/callgrind instruction counts of single parse_bytes calls (doubling and cache-size independence of the CPU cost)",
+         "Bytes requested, allocation count, peak, largest single request and result size (bytes released when the result is dropped) are deterministic per call; instruction counts of the measured call come from callgrind (counters zeroed on entry, dumped on exit). Sharp monitors: doubling pairs in allocation and in instructions (k vs 2k must stay linear for every repetition of the format), cache-size independence (same input on a fresh parser and on one holding thousands of unrelated templates) and the single-request bound (no allocation sized by a count/length field beyond what the input or result justifies); the absolute bounds use constants calibrated on the repaired tree.",
+         "CPU cost is observed only along the doubling families, allocation on every call; calls whose caches hold zero-length fields are attributed to the listed amplification finding and judged against exactly that model's allowance. A missing valgrind makes the instruction monitor inconclusive (note), never a violation."),
  "C16": (T + "JSON oracle: serde_json output read back by an independent order-preserving reader and compared with a tree built independently from the decoded structure; text compared across repeats and parser instances",
          "Well-formedness (strict RFC 8259 reader), determinism (same result twice; two instances fed the same history), faithfulness (every header field, template definition and cell value incl. 128-bit integers digit by digit, non-finite floats as null, record keys in template order, padding absent).",
          "The expected tree restates the documented derive(Serialize) shape of the public result types; a deliberate change of the JSON shape would have to be mirrored there."),
